@@ -290,27 +290,58 @@ theorem filter_absent (cfg : Cfg) (o : NumOracle F) (d : Char) (eol : Str) (t : 
 
 /-! ## 4. variables -/
 
-/-- **var_binding.**  `setup_terminals` creates one variable per column after the first; the
-    variable made for column `j + 1` carries index `j`, and evaluating it on an example returns
-    input `j` of that example – the `j`-th non-output cell of the row by `rows_faithful`. -/
-theorem var_binding (strong : Bool) (cols : List Col) (vars : List VarSym) (e : Example F)
-    (h : setupTerminals strong cols = .ok vars) :
-    vars.length = cols.length - 1 ∧
-    ∀ j (hj : j < vars.length), (vars[j]).var = j ∧
-      (vars[j]).name = (if (cols.getD (j + 1) {}).name.isEmpty then 'X' :: natStr (j + 1)
-                        else (cols.getD (j + 1) {}).name) ∧
-      ∀ (hi : j < e.input.length), evalVar vars[j] e = .ok e.input[j] := by
+/-- **var_binding.**  The `j`-th variable `setup_terminals` creates carries index `j`, and
+    evaluating it on an example returns input `j` of that example.  In the code after the fix
+    there is exactly one variable per column that has a domain (after the output column), named
+    after it, in order; since `to_example` stores exactly the cells of those columns
+    (`inputVals`), variable `j` reads the `j`-th input column and no variable reads beyond the
+    inputs. -/
+theorem var_binding (cfg : Cfg) (strong : Bool) (cols : List Col) (vars : List VarSym) (e : Example F)
+    (h : setupTerminals cfg strong cols = .ok vars) :
+    (∀ j (hj : j < vars.length), (vars[j]).var = j ∧
+      ∀ (hi : j < e.input.length), evalVar vars[j] e = .ok e.input[j]) ∧
+    vars.map (·.name) =
+      ((cols.tail.zipIdx 1).filter (fun p => !(cfg.guards && p.1.dom = .void))).map (fun p => varName p.1 p.2) ∧
+    (cfg.guards = true → vars.length = ((cols.tail.map (·.dom)).filter (fun d => d ≠ .void)).length) := by
   unfold setupTerminals at h
   split at h
   · cases h
   · simp only [pure, Except.pure, Except.ok.injEq] at h
     subst h
-    refine ⟨by simp, ?_⟩
-    intro j hj
-    simp only [List.length_map, List.length_range] at hj
-    simp only [List.getElem_map, List.getElem_range, true_and]
-    intro hi
-    simp [evalVar, fetchVar, List.getElem?_eq_getElem hi, pure, Except.pure]
+    refine ⟨?_, setupVarsGo_names _ _ _ _ _, ?_⟩
+    · intro j hj
+      have hv := setupVarsGo_var cfg.guards (categories strong cols) cols.tail 1 0 j hj
+      simp only [Nat.zero_add] at hv
+      refine ⟨hv, ?_⟩
+      intro hi
+      simp [evalVar, fetchVar, hv, List.getElem?_eq_getElem hi, pure, Except.pure]
+    · intro hg
+      rw [hg]
+      exact setupVarsGo_length _ _ _ _
+
+/-- consequently, after the fix, on an example `to_example` built for these columns every
+    variable evaluates to the corresponding input: none reads out of range -/
+theorem var_in_range (o : NumOracle F) (strong : Bool) (cols : List Col) (vars : List VarSym) (xs : List Str)
+    (h : setupTerminals { guards := true } strong cols = .ok vars)
+    (hin : InputsOK o (cols.tail.map (·.dom)) xs) (e : Example F)
+    (he : e.input = inputVals o (cols.tail.map (·.dom)) xs) :
+    ∀ j (hj : j < vars.length), ∃ (hi : j < e.input.length), evalVar vars[j] e = .ok e.input[j] := by
+  obtain ⟨h1, _, h3⟩ := var_binding { guards := true } strong cols vars e h
+  intro j hj
+  have hlen : e.input.length = vars.length := by
+    rw [he, inputVals_length o _ _ hin, h3 rfl]
+  have hi : j < e.input.length := by omega
+  exact ⟨hi, (h1 j hj).2 hi⟩
+
+/-- the code as found: after a column without a domain the last variable reads past the inputs
+    (`a,b,c / 1,,3`: columns `a` (output), `b` (no domain), `c`; the example has one input) -/
+theorem old_var_out_of_range :
+    ∃ vars : List VarSym, setupTerminals { guards := false } false
+        [{ name := ['a'], dom := .dbl }, { name := ['b'], dom := .void }, { name := ['c'], dom := .dbl }] = .ok vars ∧
+      ∃ v ∈ vars, evalVar v ({ input := [.dbl (3 : Nat)], output := .dbl 1 } : Example Nat) = .error (.fault .fetchVar) := by
+  refine ⟨_, rfl, ⟨['c'], 1, some 0⟩, ?_, ?_⟩
+  · simp [setupVarsGo, varName, categories, categoriesGo]
+  · simp [evalVar, fetchVar, throw, throwThe, MonadExceptOf.throw]
 
 /-! ## 5. sniffer -/
 
